@@ -1,6 +1,7 @@
 """C01 -- the decoder reproduces the original data for every valid Zstandard frame.
 
-proof      : coq/props/C01.v  (theorems about the decoder model; see the file for what is closed and what is partial)
+proof      : coq/props/C01.v  (the decoder inverts the writer of the format layer by layer: sequence execution =
+             reference semantics, every literals layout, every combination of table modes, whole blocks, whole frames)
 tie check  : whole frames through the implementation and through the extracted Coq model (token by token)
 oracle     : the bytes that were compressed (frames come from libzstd at many settings, from this crate's compressor
              and from a hand frame builder), the declared content size, the stored checksum vs XXH64 of the content
@@ -14,7 +15,6 @@ import framegen
 def run(chk):
     rng = SplitMix64(chk.seed).fork('C01')
     thorough = chk.tier == 'thorough'
-    chk.level = 'translation_validation'
     chk.prove('props/C01.v')
     if not prepare(chk):
         return
